@@ -19,9 +19,12 @@ def match_known(ex, known, site, env):
             return k["id"]
         ns = {"And": z3.And, "Or": z3.Or, "Not": z3.Not, "Implies": z3.Implies, "z3": z3}
         ns.update(env)
+        ns["__builtins__"] = {"range": range, "len": len, "any": any, "all": all, "min": min, "max": max}
         try:
-            cond = eval(pat, {"__builtins__": {"range": range, "len": len, "any": any, "all": all, "min": min, "max": max}}, ns)
+            cond = eval(pat, ns)
         except Exception as e:
+            import sys
+            sys.stderr.write(f"known-finding pattern {k['id']} failed to evaluate: {e!r}\n")
             continue
         if cond is True:
             return k["id"]
